@@ -136,6 +136,11 @@ def _worker(kind, idx, tier):
                         fn = k.__dict__["__init__"]
                         break
             fname = fn.__module__ + "." + fn.__qualname__
+            # a loop spec registered by ANOTHER contract of the same function (used when that function runs as a
+            # callee elsewhere) must not leak into this proof: a contract without its own spec for a loop wants the
+            # loop unrolled / executed as it is
+            for key in [k2 for k2 in eng.loopspecs if k2[0] == fname and k2[1] not in c.loops]:
+                del eng.loopspecs[key]
             for k, spec in c.loops.items():
                 eng.loopspecs[(fname, k)] = spec
             r = verify.run_contract(eng, c)
